@@ -46,7 +46,7 @@ theorem moveFront_invW {s : State} (h : InvW s) {p : Page} (hp : p ∈ s.pages) 
   · intro q hq; exact h.netOf q ((hm q).1 hq)
   · intro n hn; show _ = (p :: rmId s.pages p.id).countP _; rw [countP_moveFront h.pidNodup hp]; exact h.nCached n hn
   · intro n hn; show _ = (p :: rmId s.pages p.id).countP _; rw [countP_moveFront h.pidNodup hp]; exact h.nRef n hn
-  · intro n hn pg; show _ = (p :: rmId s.pages p.id).countP _ % 256; rw [countP_moveFront h.pidNodup hp]; exact h.nSub n hn pg
+  · intro n hn pg; show _ = (p :: rmId s.pages p.id).countP _ % 65536; rw [countP_moveFront h.pidNodup hp]; exact h.nSub n hn pg
   · show _ = (p :: rmId s.pages p.id).length
     rw [List.length_cons, length_rmId h.pidNodup hp]; exact h.nPages
   · show _ = fsum (fun q => decide (q.ref = 0)) Page.size (p :: rmId s.pages p.id)
@@ -197,5 +197,23 @@ theorem getPage_all {s : State} (h : InvW s) (hz : ZNet s) (nid pgno : Nat) (sub
         have z1 : ZNet s1 := znet_of_key (by rw [show s1.nets = s.nets from b]) hz
         obtain ⟨a2, b2, c2, d2⟩ := pageRef_all a z1 p.id
         exact ⟨a2, b2, by rw [show s1.memUsed = s.memUsed from d] at c2; exact c2, d2.trans e⟩
+
+/-- the exact look-up of the page walk -/
+theorem lookupExact_all {s : State} (h : InvW s) (hz : ZNet s) (nid pgno : Nat) (subno : Int) :
+    InvW (s.lookupExact nid pgno subno).1 ∧ ZNet (s.lookupExact nid pgno subno).1
+      ∧ (s.lookupExact nid pgno subno).1.memUsed ≤ s.memUsed
+      ∧ (s.lookupExact nid pgno subno).1.memLimit = s.memLimit := by
+  unfold State.lookupExact
+  split
+  · exact ⟨h, hz, Nat.le_refl _, rfl⟩
+  · obtain ⟨a, b, _, d, e, _⟩ := pageByPgno_all h nid pgno subno.toNat 0xFFFFFFFF
+    generalize s.pageByPgno nid pgno subno.toNat 0xFFFFFFFF = r at a b d e
+    obtain ⟨s1, o⟩ := r
+    cases o with
+    | none => exact ⟨a, znet_of_key (by rw [show s1.nets = s.nets from b]) hz, by rw [show s1.memUsed = _ from d]; exact Nat.le_refl _, e⟩
+    | some p =>
+      have z1 : ZNet s1 := znet_of_key (by rw [show s1.nets = s.nets from b]) hz
+      obtain ⟨a2, b2, c2, d2⟩ := pageRef_all a z1 p.id
+      exact ⟨a2, b2, by rw [show s1.memUsed = s.memUsed from d] at c2; exact c2, d2.trans e⟩
 
 end Zvbi.Cache
